@@ -187,6 +187,7 @@ HANDMADE = [
     "pack:6 [numa(indexes=1*3:2*2)] pu:1", "pu:6(indexes=1*3:2*2)", "pu:6(indexes=2*3:1*2)", "pu:4(indexes=1*2:1*2)", "pu:8(indexes=2*2:2*2)", "numa:6(indexes=1*3:2*2) pu:1",
     "pack:2 core:3 pu:2(indexes=2*3:2*2)", "pu:12(indexes=3*2:1*3:6*2)", "pu:12(indexes=3*2:1*3:2*2)",
     "l2:2(indexes=7,5) pu:2", "pack:2 l2:2(indexes=7,5,3,1) pu:1", "group:3(indexes=2,0,1) pu:2", "l3:2 l2:2(indexes=2*2:1*2) pu:1", "pack:2 l1i:2(indexes=pack) pu:1", "pack:2 l1i:2(indexes=pack:l1i) pu:1", "group:2 l3:3(indexes=group) core:2 pu:1",
+    "pack:2 core:2 pu:1(indexes=0,2,1,7)", "pack:2 [numa(indexes=0,2,1,5)] [numa] pu:2", "pack:2 core:2 pu:1(indexes=0,2,1,3)", "pack:2 core:2 pu:1(indexes=9,2,1,3)", "numa:4(indexes=0,2,1,9) pu:1",
     "numa:2(indexes=1,0) pu:1", "numa:2 core:2 pu:1", "pack:2 numa:2 pu:1", "pack:1 numa:1 core:1 pu:1", "core:1 pack:1 pu:2", "l1:1 l2:1 pu:2",
 ]
 
@@ -598,4 +599,64 @@ def gen_level_indexes_spec(rng, n):
             off = rng.choice([0, 0, 1, 10])
             ix = ",".join(str(x + off) for x in p)
         out.append(" ".join("%s:%d" % (nm, ar) + ("(indexes=%s)" % ix if i == k else "") for i, (nm, ar) in enumerate(levels)))
+    return out
+
+
+# ---------------------------------------------------------------------------
+# Explicit index lists that ALMOST are an interleaving: the values of a loop nest with one entry (last / first /
+# middle) replaced by an unused larger value.  The export must fall back to the explicit list (its loop
+# recognition has to look at every entry); judged by the export / re-import comparison of the harness.
+# ---------------------------------------------------------------------------
+def _interleaved(total, radices):
+    """digit-reversal over the given radices (product = total): what nested x*y loops generate"""
+    out = []
+    for j in range(total):
+        digits, r = [], j
+        for rad in reversed(radices):
+            digits.append(r % rad)
+            r //= rad
+        digits.reverse()                 # most significant first
+        v, mul = 0, 1
+        for dg, rad in zip(digits, radices):
+            v += dg * mul
+            mul *= rad
+        out.append(v)
+    return out
+
+
+def gen_near_interleave(rng, n):
+    out = []
+    shapes = ["pu", "pu", "numa-level", "attached", "attached2", "attached-deep"]
+    for _ in range(n):
+        shape = rng.choice(shapes)
+        a, b, c = rng.choice([2, 2, 3]), rng.choice([2, 2, 3]), rng.choice([1, 2, 2, 3])
+        if shape == "pu":
+            c = max(c, 2) if rng.random() < 0.5 else c
+            total, fmt = a * b * c, "pack:%d core:%d pu:%d(indexes=%%s)" % (a, b, c)
+        elif shape == "numa-level":
+            total, fmt = a * b, "pack:%d numa:%d(indexes=%%s) pu:%d" % (a, b, c)
+        elif shape == "attached":
+            a = a * b
+            total, fmt = a, "pack:%d [numa(indexes=%%s)] pu:%d" % (a, c)
+        elif shape == "attached2":
+            total, fmt = 2 * a, "pack:%d [numa(indexes=%%s)] [numa] pu:%d" % (a, max(c, 2))
+        else:
+            total, fmt = a * b, "pack:%d core:%d [numa(indexes=%%s)] pu:%d" % (a, b, c)
+        if total < 4:
+            continue
+        facs = [f for f in range(2, total) if total % f == 0]
+        if not facs:
+            continue
+        f1 = rng.choice(facs)
+        radices = [f1, total // f1]
+        if rng.random() < 0.3 and (total // f1) % 2 == 0 and total // f1 > 2:
+            radices = [f1, 2, total // f1 // 2]
+        base = _interleaved(total, radices)
+        if base == list(range(total)):
+            continue
+        out.append(fmt % ",".join(map(str, base)))
+        for pos in (total - 1, 0, total // 2):
+            lst = list(base)
+            lst[pos] = total + rng.choice([0, 1, 1, 4, 20])
+            out.append(fmt % ",".join(map(str, lst)))
     return out
